@@ -956,6 +956,17 @@ func (x *Explorer) fireAndRun(s *State, a FireAlt) {
 	op := s.Threads[ti].Pending
 	desc := fmt.Sprintf("%s %s", e.threadName(a.Thread), e.opDesc(s, op, a))
 	e.addTrace(s, desc, a.Thread)
+	// gates for the native schedule replay: the receiver's site first (it must be waiting), then the firing site
+	if a.Partner != 0 {
+		if pi := s.threadIdx(a.Partner); pi >= 0 {
+			if pop := s.Threads[pi].Pending; pop != nil && pop.Instr != nil && !pop.FromDefer {
+				s.Trace.Gates = append(s.Trace.Gates, e.pos(pop.Instr))
+			}
+		}
+	}
+	if op != nil && op.Instr != nil && !op.FromDefer && op.Kind != VStart {
+		s.Trace.Gates = append(s.Trace.Gates, e.pos(op.Instr))
+	}
 	var after []*State
 	func() {
 		defer func() {
